@@ -1,9 +1,156 @@
-/- C07 driver: not written yet -/
-import Driver.Parse
+/-
+  C07 / C01 driver.  Input: program lines prefixed `P ` and the real library's answers
+  (harness/treeprog.cpp) prefixed `R `, case by case.
+  * every `n` line is executed on the model (Tree::unary/binary/remap/apply/flatten/optimized)
+    and, in parallel, on the RAW tree (no rewriting at all: the mathematical definition);
+  * `R dump`   : canon(model node) must equal canon(real DAG)                       (C07)
+  * `R tape-*` : the real tape must be well-formed and decompile to the real optimised tree;
+                 the real optimised tree must equal the model's optimised tree       (C01/C07)
+  * `P eval/batch`: prints the reference value of the RAW tree with its error bound; the
+                 check compares the real values against it                            (C01/C07 oracle)
+-/
+import Driver.ExprIO
+import LibfiveModel.Optimize
+open Libfive Driver.ExprIO
 
 namespace Driver.C07
 
-def run (_args : List String) (lines : Array String) : Array String :=
-  #[s!"MISMATCH driver-not-implemented {lines.size}"]
+structure St where
+  case : String := ""
+  model : Nodes := #[]
+  raw : Nodes := #[]
+  nvars : Nat := 0
+  deck : Option DeckInfo := none
+  tape : Option TapeM := none
+  flagged : List Nat := []      -- nodes carrying TREE_FLAG_IS_OPTIMIZED (results of `optimized()`)
+
+def modelFlat (t : E32) : E32 :=
+  if !smallerThan 3000 t then .invalid
+  else if flatSizeEst t 1 1 1 (fun _ => none) > 4000 then .invalid
+  else Expr.flatten F32K t
+
+def modelOpt (t : E32) : E32 :=
+  match modelFlat t with
+  | .invalid => .invalid
+  | f => Optimize.optimize F32K (fun a b => Canon.key a ≤ Canon.key b) f
+
+def showE (t : E32) : String := Canon.key t
+
+def big (t : E32) : Bool := !smallerThan 2500 t
+
+def cmpCanon (a b : E32) : Bool := Canon.approxEq (Canon.canon a) (Canon.canon b)
+
+/-- the tree contains a NaN / infinite constant or a division by a zero constant: the optimiser's
+    coefficient arithmetic then produces NaN/inf multipliers whose placement depends on map
+    iteration order; such trees are outside the property ("no sub-expression undefined") -/
+partial def nonFinite : E32 → Bool
+  | .const c => let f := F32.ofBits c; f.isNaN || f.isInf
+  | .un _ a => nonFinite a
+  | .bin op a b =>
+    (match op, b with
+     | Op.div, .const c => F32.ofBits c == 0
+     | _, _ => false) || nonFinite a || nonFinite b
+  | .remap t a b c => nonFinite t || nonFinite a || nonFinite b || nonFinite c
+  | .apply t _ a => nonFinite t || nonFinite a
+  | _ => false
+
+def handle (st : St) (line : String) : St × List String :=
+  match words line with
+  | "P" :: "case" :: k :: _ => ({ case := k }, [])
+  | "P" :: "n" :: rest =>
+    let ws := "n" :: rest
+    -- `optimized()` of a tree whose handle carries the optimised flag returns it unchanged
+    let optF : E32 → E32 := match ws with
+      | "n" :: _ :: "opt" :: a :: _ => if st.flagged.contains (nat! a) then id else modelOpt
+      | _ => modelOpt
+    let flagged := match ws with
+      | "n" :: i :: "opt" :: _ => (nat! i) :: st.flagged
+      | _ => st.flagged
+    let (m, nv) := execNode optF modelFlat st.model st.nvars ws
+    -- a skipped remap returns `*this`, i.e. a handle that keeps the optimised flag
+    let flagged := match ws with
+      | "n" :: i :: "remap" :: t :: _ =>
+        if st.flagged.contains (nat! t) && getNode m i == getNode st.model t then (nat! i) :: flagged else flagged
+      | _ => flagged
+    -- raw tree: same program, no rewriting; opt / flat are the identity, cvars is CONST_VAR
+    let rawNode : Nodes :=
+      match ws with
+      | "n" :: id :: "un" :: op :: a :: _ =>
+        setNode st.raw (nat! id) (.un ((Op.ofPName? op).getD Op.invalid) (getNode st.raw a))
+      | "n" :: id :: "bin" :: op :: a :: b :: _ =>
+        setNode st.raw (nat! id) (.bin ((Op.ofPName? op).getD Op.invalid) (getNode st.raw a) (getNode st.raw b))
+      | "n" :: id :: "remap" :: t :: a :: b :: c :: _ =>
+        setNode st.raw (nat! id) (.remap (getNode st.raw t) (getNode st.raw a) (getNode st.raw b) (getNode st.raw c))
+      | "n" :: id :: "opt" :: a :: _ => setNode st.raw (nat! id) (getNode st.raw a)
+      | "n" :: id :: "flat" :: a :: _ => setNode st.raw (nat! id) (getNode st.raw a)
+      | "n" :: id :: "cvars" :: a :: _ => setNode st.raw (nat! id) (.un Op.constVar (getNode st.raw a))
+      | _ => (execNode id id st.raw st.nvars ws).1
+    ({ st with model := m, raw := rawNode, nvars := nv, flagged := flagged }, [])
+  | "R" :: "dump" :: id :: "dag" :: rest =>
+    match parseDag rest with
+    | some real =>
+      let m := getNode st.model id
+      if m == .invalid || big m || big real then (st, [s!"skip big case {st.case} dump {id}"])
+      else if nonFinite m || nonFinite real then (st, [s!"skip nonfinite case {st.case} dump {id}"])
+      else if cmpCanon m real then (st, [s!"ok dump case {st.case} node {id}"])
+      else (st, [s!"MISMATCH dump case {st.case} node {id} model= {showE (Canon.canon m)} real= {showE (Canon.canon real)}"])
+    | none => (st, [s!"MISMATCH parse case {st.case} dump {id}"])
+  | "R" :: "eq" :: a :: b :: r :: _ => (st, [s!"eq {st.case} {a} {b} {r}"])
+  | "R" :: "tape-of" :: _ :: "deck" :: rest => ({ st with deck := some (parseDeckInfo rest) }, [])
+  | "R" :: "tape-clauses" :: id :: "tape" :: rest =>
+    match parseTape rest with
+    | some T =>
+      let o := if wfb T.t then s!"ok tape-wf case {st.case} node {id}"
+               else s!"MISMATCH tape-wf case {st.case} node {id}"
+      ({ st with tape := some T }, [o])
+    | none => (st, [s!"MISMATCH parse case {st.case} tape {id}"])
+  | "R" :: "tape-opt" :: id :: "dag" :: rest =>
+    match parseDag rest, st.deck, st.tape with
+    | some realOpt, some d, some T =>
+      let dec := decompile d T
+      if big realOpt || big dec then (st, [s!"skip big case {st.case} tape {id}"]) else
+      let o1 := if nonFinite dec || nonFinite realOpt then s!"skip nonfinite case {st.case} deck {id}"
+                else if cmpCanon dec realOpt then s!"ok deck case {st.case} node {id}"
+                else s!"MISMATCH deck case {st.case} node {id} tape= {showE (Canon.canon dec)} tree= {showE (Canon.canon realOpt)}"
+      let m := if st.flagged.contains (nat! id) then getNode st.model id else modelOpt (getNode st.model id)
+      let o2 := if m == .invalid then s!"skip big case {st.case} optimize {id}"
+                else if nonFinite m || nonFinite realOpt then s!"skip nonfinite case {st.case} optimize {id}"
+                else if cmpCanon m realOpt then s!"ok optimize case {st.case} node {id}"
+                else s!"MISMATCH optimize case {st.case} node {id} model= {showE (Canon.canon m)} real= {showE (Canon.canon realOpt)}"
+      (st, [o1, o2])
+    | _, _, _ => (st, [s!"MISMATCH parse case {st.case} tape-opt {id}"])
+  | "R" :: "exception" :: rest => (st, [s!"exception case {st.case} {" ".intercalate rest}"])
+  | "P" :: kind :: id :: "nv" :: nv :: rest =>
+    if kind != "eval" && kind != "batch" then (st, []) else
+    let nv := nat! nv
+    let varPairs := (List.range nv).map fun i => (rest.getD (2*i) "", rest.getD (2*i+1) "")
+    let vals : List (Nat × Float32) := varPairs.filterMap fun (n, h) =>
+      (varOf (getNode st.model n)).map fun vi => (vi, F32.ofBits (hexBits h))
+    let vars : Nat → Float32 := fun v => match vals.find? (·.1 = v) with
+      | some (_, x) => x
+      | none => 0
+    let rest := rest.drop (2 * nv)
+    match rest with
+    | "np" :: np :: pts =>
+      let np := nat! np
+      let t := getNode st.raw id
+      if big t then (st, [s!"skip big case {st.case} {kind} {id}"]) else
+      let outs := (List.range np).map fun k =>
+        let p := (F32.ofBits (hexBits (pts.getD (3*k) "")), F32.ofBits (hexBits (pts.getD (3*k+1) "")),
+                  F32.ofBits (hexBits (pts.getD (3*k+2) "")))
+        let r := refAt t vars p
+        s!"{f64Hex r.v} {f64Hex r.err} {if r.bad then 1 else 0}"
+      (st, [s!"ref {st.case} {kind} {id} {np} " ++ " ".intercalate outs])
+    | _ => (st, [])
+  | _ => (st, [])
+
+def run (_args : List String) (lines : Array String) : Array String := Id.run do
+  let mut st : St := {}
+  let mut out : Array String := #[]
+  for l in lines do
+    let (st', o) := handle st l
+    st := st'
+    for x in o do out := out.push x
+  return out
 
 end Driver.C07
